@@ -3,7 +3,7 @@ WRAPS = ("psGetEntropy", "gettimeofday", "time", "clock_gettime", "chooseSkeSigA
 def run(ctx):
     st = [dict(variant="asan", name="c07", sources=["checks/c07_negotiation.c", "harness/mx_wraps.c"], wraps=WRAPS, libs=["-lcrypto"], shards=vflib.NCPU, timeout=7200 if ctx.thorough else 1500)]
     rule = ("Each case = one pair of client/server configurations (all 7x7 TLS and 3x3 DTLS version subsets exhaustively; every single suite per version with the suite enabled or disabled on "
-            "the server; seeded random suite lists; TLS 1.3 group and signature-algorithm subsets; extended-master-secret on/off pairs; fallback SCSV for every version-set pair) or one "
+            "the server; seeded random suite lists; TLS 1.3 group and signature-algorithm subsets; fallback SCSV for every version-set pair) or one "
             "man-in-the-middle rewrite of one ClientHello/ServerHello field (legacy version, random tail, session id, suite drop/insert/swap/set, compression, each extension removed / "
             "duplicated / one byte edited, unknown extension appended, TLS 1.3 stripped from supported_versions) on 7 plain configurations and, for 4 (thorough: 5) TLS 1.3 configurations that go "
             "through HelloRetryRequest (client key share for a group the server does not enable; RSA and ECDSA identity, SHA-256 and SHA-384 transcript, 1.3-only and 1.1-1.3 version sets; the "
@@ -15,11 +15,24 @@ def run(ctx):
             "CertificateRequest: completion => algorithm in the verifier's configured list and in the list on the wire and usable with the signer's key type (TLS 1.3: the scheme of its curve / "
             "rsa_pss_rsae); no usable common algorithm => no completion; control lists must complete. Rogue signer: the signing endpoint's algorithm chooser is overridden (--wrap) to sign with an "
             "algorithm of its key type that the verifier left out (incl. SHA-1): the verifier must not complete. Every case runs in a fork()ed child and is judged by the reference negotiation "
-            "function. distinct_nontrivial = distinct configuration / rewrite / (identity, version, role, list, forced algorithm) tuples that were applicable and executed.")
+            "function. Histories of matrixSslSetCipherSuiteEnabledStatus calls on the server (20 fixed ones of length 1-4 over 4 suites: disable, re-enable, duplicates, re-enable-then-disable-again, "
+            "all-but-one, hole-then-refill, plus seeded ones; thorough: all 258 of length <= 3 over 3 suites and 400 seeded of length 4; session-level on TLS 1.2 RSA / TLS 1.2 ECDSA / TLS 1.3 / DTLS 1.2 / "
+            "TLS 1.1 suite universes, process-wide (ssl == NULL, undone by the exit of the forked child) on the TLS ones), made after the ClientHello was encoded, against offers of exactly the "
+            "disabled suites, the disabled suites followed by the enabled ones, and each disabled suite alone: reference model = a set; negotiated suite not in it, completion iff an enabled usable "
+            "offered suite exists. Extended master secret with client disabled / enabled / REQUIRED x server enabled / REQUIRED on full handshakes, session-id and ticket resumption of a session "
+            "established with or without it by a tolerant server session sharing cache and ticket keys (TLS 1.2, DTLS 1.2, 1.3-capable client against a 1.2 server; thorough also TLS 1.1): in force "
+            "(extension in ClientHello and ServerHello on the wire, equal to both endpoints' state) iff both enabled it, a requiring side never completes without it, an abbreviated handshake is in "
+            "step with the original session; controls must resume. Honest completed handshakes: ServerHello suite / legacy_version / null compression and the RFC 8446 downgrade sentinel in "
+            "ServerHello.random (present exactly when a 1.3-capable server negotiates 1.2 / 1.1) read from the wire; rewrites of supported_versions to 'no 1.3' and to '1.1 only' must kill the "
+            "client at the ServerHello. distinct_nontrivial = distinct configuration / rewrite / (identity, version, role, list, forced algorithm) tuples that were applicable and executed.")
     return vflib.std_run(ctx, st, "exploration", rule,
         ["completeness (must succeed) is asserted only for default lists, for HelloRetryRequest configurations that share a group, and for signature lists offering the whole universe; exotic list combinations may legally be refused",
          "(D)TLS 1.2 CertificateRequest carries the library's fixed list (SHA-1/256/384 x RSA/ECDSA) whatever matrixSslSessOptsSetSigAlgs says: a client whose chain needs SHA-512 legally declines; the CertificateVerify algorithm is checked against both the configured list and the list on the wire",
          "the signer's own matrixSslSessOptsSetSigAlgs list is a verification list (API documentation); it is not required to constrain what that endpoint signs with",
          "certificate-chain signature algorithms are not 'the signature algorithm in force': only ServerKeyExchange / CertificateVerify are judged",
          "HelloRetryRequest handshakes with PSK / early data in ClientHello1 are not in the rewrite grid (C04's keyless TLS 1.3 grid exercises HelloRetryRequest with PSK offers)",
+         "a server has no switch to decline the extended master secret (dev guide: it always echoes the extension); extendedMasterSecret = -1 is a client option only",
+         "process-wide suite switches are not exercised on DTLS: client and server share the process here and the client re-encodes its ClientHello after HelloVerifyRequest",
+         "ClientHello.legacy_version is judged only with the default suite list (a list without TLS 1.3 suites makes a 1.3-enabled client write the hello of its highest usable version)",
+         "after an EMS mismatch on resumption the library falls back to a full handshake where RFC 7627 5.3 says abort; only the parameters in force are judged",
          "renegotiation is compiled out"], min_nontrivial=2000)
